@@ -1,0 +1,44 @@
+//go:build verif
+
+// Verification hooks for property C12 (read-only views of Servent.pending).
+// Compiled only with -tags verif; no existing line of the package is changed.
+
+package controlcommands
+
+import "github.com/rs/xid"
+
+// VerifC12PendingCall returns the call currently registered under (id, target), or nil.
+func (s *Servent) VerifC12PendingCall(id xid.ID, target MesosCommandTarget) *Call {
+	s.mu.Lock()
+	defer s.mu.Unlock()
+	return s.pending[CallId{Id: id, Target: target}]
+}
+
+// VerifC12PendingHas reports whether (id, target) is a key of the pending map.
+func (s *Servent) VerifC12PendingHas(id xid.ID, target MesosCommandTarget) bool {
+	s.mu.Lock()
+	defer s.mu.Unlock()
+	_, ok := s.pending[CallId{Id: id, Target: target}]
+	return ok
+}
+
+// VerifC12PendingLen returns the number of keys in the pending map.
+func (s *Servent) VerifC12PendingLen() int {
+	s.mu.Lock()
+	defer s.mu.Unlock()
+	return len(s.pending)
+}
+
+// VerifC12TryDrainDone performs a non-blocking receive on call.Done; true means a
+// ProcessResponse goroutine was blocked sending on it (and has now been released).
+func VerifC12TryDrainDone(c *Call) bool {
+	if c == nil {
+		return false
+	}
+	select {
+	case <-c.Done:
+		return true
+	default:
+		return false
+	}
+}
